@@ -51,6 +51,9 @@ _files = {}
 
 def field_names(sizes, variant):
     """variant bit 2: every field of a given width carries the same name (reserved / pad fields repeat in real tables)"""
+    if variant & 64:      # characters that some ways of splitting text into lines treat as line ends (only the line feed ends a line)
+        seps = ['hl_rec\x1esep', 'vt\x0btab', 'nel\x85next', 'ls\u2028sep', 'ff\x0cfeed', 'fs\x1cgs\x1d']
+        return [('%s #%d' % (seps[i % len(seps)], i), s) for i, s in enumerate(sizes)]
     if variant & 32:      # the name is the string literal as declared: blanks / tabs at its ends belong to it
         pat = [' hl_bay %d', 'hl_events (total) %d ', '\thl tab %d', '  two  blanks  %d  ', 'plain_%d']
         # ... and per cent signs in it are characters, not conversions
@@ -198,7 +201,7 @@ def run_chunk(chunk):
     elif chunk['k'] == 'syn':
         sizes = chunk['sizes']
         total = sum(sizes)
-        for variant in (0, 1, 2, 3, 4, 5, 6, 7, 8, 11, 16, 19, 32, 35):
+        for variant in (0, 1, 2, 3, 4, 5, 6, 7, 8, 11, 16, 19, 32, 35, 64, 67):
             for n in range(0, total + 3):
                 if n <= 7 and variant in (0, 4):
                     for vals in itertools.product((0x00, 0x01, 0xff), repeat=n):
